@@ -2,6 +2,7 @@ package c37
 
 import (
 	"bytes"
+	"fmt"
 	"context"
 	"reflect"
 	"runtime"
@@ -254,6 +255,73 @@ var tgMcMulticast = register(&target{
 })
 
 func TestC37_MulticastMulticast(t *testing.T) { check(t, tgMcMulticast, 250) }
+
+// ---- sessions: a handshake announcing group ids, then a multicast message, both from one peer to the
+// SAME service instance (the ids a peer announces are stored verbatim and compared with each other
+// and with the ids of later messages)
+
+func genGid(t *rapid.T, l string) []byte {
+	base := rapid.SampledFrom([][]byte{gidJoined.Bytes(), gidObserve.Bytes(), addr32(0xa3), addr32(0xa4)}).Draw(t, l+"base")
+	b := append([]byte(nil), base...)
+	switch rapid.IntRange(0, 7).Draw(t, l+"form") {
+	case 0:
+		return b[:rapid.IntRange(1, len(b)-1).Draw(t, l+"prefix")]
+	case 1:
+		return append(b, byte(rapid.IntRange(0, 255).Draw(t, l+"ext")))
+	case 2:
+		n := rapid.SampledFrom(hostileLens).Draw(t, l+"n")
+		return rapid.SliceOfN(rapid.Byte(), n, n).Draw(t, l+"rnd")
+	case 3:
+		return nil
+	}
+	return b
+}
+
+var tgMcSession = register(&target{
+	name:    "multicast-session",
+	inTypes: mcGIDsTypes,
+	gen: func(t *rapid.T) kase {
+		var c kase
+		mcKnobs(t, &c)
+		n := rapid.IntRange(1, 4).Draw(t, "ngids")
+		g := &mcpb.GIDs{}
+		for i := 0; i < n; i++ {
+			g.Gid = append(g.Gid, genGid(t, fmt.Sprintf("g%d", i)))
+		}
+		c.In = pstub.Frame(mustMarshal(g))
+		for i := rapid.IntRange(1, 2).Draw(t, "nmsgs"); i > 0; i-- {
+			m := &mcpb.MulticastMsg{Id: uint64(rapid.Int64().Draw(t, "id")), CreateTime: 1, Origin: otherID.overlay.Bytes(),
+				Gid: genGid(t, fmt.Sprintf("m%d", i)), Data: []byte("payload")}
+			c.Replies = append(c.Replies, pstub.Frame(mustMarshal(m)))
+		}
+		c.Gen = "framed"
+		return c
+	},
+	run: func(c *kase) []string {
+		e := newMulticast(c)
+		e.ss.Reset() // Replies are inbound messages here, nobody answers outbound streams
+		ctx, cancel := bg()
+		defer cancel()
+		g0 := runtime.NumGoroutine()
+		cls := []string{"session"}
+		if err := handlerOf(e.svc.Protocol(), "handshake")(ctx, peerOf(peerID), pstub.NewByteStream(c.In)); err != nil {
+			cls = append(cls, "err")
+		}
+		settle(g0, 2*time.Second)
+		for _, in := range c.Replies {
+			if err := handlerOf(e.svc.Protocol(), "multicast")(ctx, peerOf(peerID), pstub.NewByteStream(in)); err != nil {
+				cls = append(cls, "err")
+			}
+			settle(g0, 2*time.Second)
+		}
+		e.use(gidsOfGIDs(c)...)
+		settle(g0, 2*time.Second)
+		return cls
+	},
+	nt: func(c *kase) bool { return len(c.Replies) > 0 },
+})
+
+func TestC37_MulticastSession(t *testing.T) { check(t, tgMcSession, 150) }
 
 // ---- group message ----------------------------------------------------------------------------------------
 
